@@ -138,7 +138,7 @@ class C02(core.Prop):
         # shared atoms: membership and member graphs as sets (copy-of-template is the subject of C10)
         from .c10 import PROP as C10P
         sc = [s for s in C10P.shapes(tier) if s.get('mode') != 'coarse']
-        for s in sc[::(6 if tier == 'quick' else 10)]:
+        for s in sc[::(3 if tier == 'quick' else 5)]:
             out.append({'mode': 'mol', 'case': s, 'shared': True})
         return out
 
